@@ -8,6 +8,7 @@
 #include "algorithms/sequential/tbfalgorithm.hpp"
 #include "algorithms/sequential/tbfalgorithmtsm.hpp"
 #include "core/tbftreetsm.hpp"
+#include "algorithms/periodic/tbfalgorithmperiodictoptree.hpp"
 #include "common.hpp"
 #include "trace_kernel.hpp"
 #include <algorithm>
@@ -116,6 +117,56 @@ std::string run_exec(const Cmd& c){
     return out;
 }
 
+// ---- periodic four-step sequence with the top tree ----
+//   execper d H B mode k stop N nums...
+// output: dump || trace || R || C || I lo hi nbrep
+template <class Base>
+struct TopExposed : public Base {
+    using Base::Base;
+    void tag(){
+        for(size_t j = 0 ; j < this->multipoles.size() ; ++j){ this->multipoles[j].tagLevel1 = 100 + long(j) + 1; this->multipoles[j].tagIndex = 0; }
+        for(size_t j = 0 ; j < this->locals.size() ; ++j){ this->locals[j].tagLevel1 = 100 + long(j) + 1; this->locals[j].tagIndex = 0; }
+    }
+};
+
+template <long D>
+std::string run_exec_per(const Cmd& c){
+    using Conf = TbfSpacialConfiguration<double, D>;
+    using Space = TbfMortonSpaceIndex<D, Conf, true>;
+    using Tree = TbfTree<double, double, D, unsigned long, 1, TagVal, TagVal, Space>;
+    using Kernel = TraceKernel<double, Space>;
+    using Algo = TbfAlgorithm<double, Kernel, Space>;
+    using Top = TopExposed<TbfAlgorithmPeriodicTopTree<double, Kernel, TagVal, TagVal, Space>>;
+    const long H = c.L(2), B = c.L(3), mode = c.L(4), k = c.L(5), stop = c.L(6), N = c.L(7);
+    size_t a = 8;
+    std::array<double, D> w, ctr; for(long j = 0 ; j < D ; ++j){ w[j] = 1; ctr[j] = 0.5; }
+    Conf conf(H, w, ctr);
+    const double scale = 16.0 * double(1L << (H-1));
+    std::vector<std::array<double, D>> pos(N);
+    for(long i = 0 ; i < N ; ++i) for(long j = 0 ; j < D ; ++j) pos[i][j] = double(c.L(a++)) / scale;
+    Tree tree(conf, pos, B, mode != 0);
+    tag_cells(tree);
+    TraceSink sink; trace_sink() = &sink;
+    sink.shiftAware = true; sink.topK = k; sink.leafLevel = H - 1;
+    std::string out = dump(tree);
+    std::string interval;
+    {
+        std::unique_ptr<Algo> algo(new Algo(conf, stop));
+        std::unique_ptr<Top> top(new Top(conf, k));
+        top->tag();
+        algo->execute(tree, TbfAlgorithmUtils::TbfBottomToTopStages); sink.add("--");
+        sink.inTop = true; top->execute(tree); sink.inTop = false; sink.add("--");
+        algo->execute(tree, TbfAlgorithmUtils::TbfTransferStages); sink.add("--");
+        algo->execute(tree, TbfAlgorithmUtils::TbfTopToBottomStages); sink.add("--");
+        auto iv = top->getRepetitionsIntervals();
+        interval = "I " + std::to_string(iv.first[0]) + " " + std::to_string(iv.second[0]) + " " + std::to_string(top->getNbRepetitionsPerDim());
+        for(long j = 1 ; j < D ; ++j) if(iv.first[j] != iv.first[0] || iv.second[j] != iv.second[0]) interval += " ANISO";
+    }
+    out += " || " + join_trace(sink) + " || " + values(tree) + " || " + interval;
+    trace_sink() = nullptr;
+    return out;
+}
+
 // ---- target/source variant ----
 template <class Groups, class PGroups>
 std::string dump_parts(long H, Groups&& cellGroupsAt, PGroups&& pgroups){
@@ -192,6 +243,14 @@ std::string run_exec_tsm(const Cmd& c){
 
 int main(int argc, char** argv){
     return run_commands(argc, argv, [](const Cmd& c) -> std::string {
+        if(c.tok[0] == "execper"){
+            switch(c.L(1)){
+            case 1: return run_exec_per<1>(c);
+            case 2: return run_exec_per<2>(c);
+            case 3: return run_exec_per<3>(c);
+            }
+            return "?dim";
+        }
         const long d = c.L(1); const bool per = c.L(2) != 0;
         if(c.tok[0] == "exectsm"){
             switch(d*2 + (per?1:0)){
